@@ -196,6 +196,14 @@ pub fn specs(quick: bool) -> Vec<Spec> {
     for e in unary_catalogue() {
         v.extend(variants(e.kind, 3, &Spec::never()));
     }
+    // the views that take a second view (the moving average of EFT / PFE) with that view silent for ever,
+    // and with one that warms up slowly
+    for n in [3usize, 5] {
+        for ma in [Spec::never(), Spec::un(crate::spec::Kind::Sma, 40, Spec::echo()), Spec::un(crate::spec::Kind::LaguerreRsi, 1, Spec::echo())] {
+            v.push(Spec::with_ma(crate::spec::Kind::Eft, n, Spec::echo(), ma.clone()));
+            v.push(Spec::with_ma(crate::spec::Kind::Pfe, n, Spec::echo(), ma));
+        }
+    }
     // binary combinators over a windowed and a recursive child
     for k in crate::spec::BINARY {
         v.push(Spec::bin(k, mk2(crate::spec::Kind::Sma, 3), Spec::unp(crate::spec::Kind::GTE, 0, vec![1.0], Spec::un(crate::spec::Kind::Ema, 2, Spec::echo()))));
